@@ -604,7 +604,7 @@ def emailVerifyPostStart : H PUnit := do
 def emailVerifyEnd (setupPath : Bytes) : H PUnit := do
   let c ← get
   let given := (c.sess.get .tfaToken).getD []
-  if c.req.tokenRaw != given then
+  if given.isEmpty || c.req.tokenRaw != given then
     redirect root none (some .invalid2FAVerificationToken)
   else
     delS .tfaToken
